@@ -214,10 +214,14 @@ def record(run, results: List[Dict[str, Any]], prefix: str, keyfn, bounds: str =
         name = prefix + (r.get("tag") or "") + ("/" if r.get("tag") else "") + r["name"]
         eng = "crosshair"
         detail = dict(bounds=bounds, twin=r["twin_verdict"], wall_s=r["wall_s"])
-        if r["twin_verdict"] in (CONFIRMED, NO_PRE):
-            if r.get("allow_vacuous") and r["twin_verdict"] == NO_PRE and r["verdict"] in (CONFIRMED, NO_PRE):
-                # a partition of a larger input space that happens to contain no admissible input
-                run.ok(name, eng, solver_s=r["wall_s"], verdict_text="empty partition (no input meets the precondition)", **detail)
+        if r["twin_verdict"] in (CONFIRMED, NO_PRE) and r["verdict"] != COUNTEREXAMPLE:
+            # (a counterexample of the harness itself proves that the precondition is reachable: the twin only timed out)
+            if r.get("allow_vacuous") and r["twin_verdict"] == NO_PRE:
+                if r["verdict"] in (CONFIRMED, NO_PRE):
+                    # a partition of a larger input space that happens to contain no admissible input
+                    run.ok(name, eng, solver_s=r["wall_s"], verdict_text="empty partition (no input meets the precondition)", **detail)
+                else:
+                    run.inconclusive(name, eng, "%s; reachability twin: %s" % (r["verdict"], r["twin_verdict"]), solver_s=r["wall_s"], **detail)
                 continue
             if r.get("timing_dependent") and r["twin_verdict"] == NO_PRE:
                 # harnesses around solve() abandon a configuration whose first call exceeds a wall-clock guard; on a loaded
